@@ -482,6 +482,19 @@ func (c *Conn) AddStreamFault(f StreamFault) {
 }
 
 // FaultsFired returns how many registered stream faults were applied.
+// FaultsFiredDir counts the stream faults of one direction that have fired on this connection.
+func (c *Conn) FaultsFiredDir(dir int) int {
+	c.mu.Lock()
+	defer c.mu.Unlock()
+	n := 0
+	for _, f := range c.faults {
+		if f.done && f.Dir == dir {
+			n++
+		}
+	}
+	return n
+}
+
 func (c *Conn) FaultsFired() int {
 	c.mu.Lock()
 	defer c.mu.Unlock()
